@@ -173,6 +173,15 @@ VARIANTS = [
      "old": r'if unpacked_data.endswith(b"\x00"):', "new": r'if unpacked_data[-1:] == b"\x00":'},
     {"name": "P R1 logging the raw body length in serialize", "file": SER, "expect": "silent",
      "old": "            writer.write_bytes(raw_body)\n", "new": "            logger.debug('raw body of %d bytes', len(raw_body))\n            writer.write_bytes(raw_body)\n"},
+    # ------------------------------------------------------------------ R6
+    {"name": "R6 quaternion packer normalises before packing", "file": PACK, "expect": "C02.R6",
+     "old": "                x = x.data()\n            return struct_obj.pack(*x[:needed_elems])",
+     "new": "                x = x.data()\n            norm = sum(c * c for c in x) ** 0.5 or 1.0\n            x = [c / norm for c in x]\n"
+            "            return struct_obj.pack(*x[:needed_elems])"},
+    {"name": "R6 coordinate packer rounds its components", "file": PACK, "expect": "C02.R6",
+     "old": "            return struct_obj.pack(*x)\n", "new": "            return struct_obj.pack(*(round(c, 6) for c in x))\n"},
+    {"name": "P R6 components selected into a local first", "file": PACK, "expect": "silent",
+     "old": "            return struct_obj.pack(*x[:needed_elems])", "new": "            wanted = tuple(x)[:needed_elems]\n            return struct_obj.pack(*wanted)"},
     # ------------------------------------------------------------------ R5 breaking
     {"name": "R5 writer skips on truthiness", "file": SER, "expect": "C02.R5",
      "old": "if block_list is None:", "new": "if not block_list:"},
